@@ -31,6 +31,13 @@ def designs_out(lst):
            float(d.diag.corr), float(d.diag.required_impact)) for d in lst]
 
 
+def scribble(obj):
+  """What a call returns belongs to the caller: the set / list handed back is emptied in place after it has been read
+  (the designs inside a result list are left alone).  Later answers must not notice."""
+  if isinstance(obj, (set, list)):
+    obj.clear()
+
+
 def do_call(mmo, name):
   """Performs one public call (under a watchdog); the answer is a JSON-able projection, exceptions are answers."""
   from harness import core
@@ -43,7 +50,10 @@ def do_call(mmo, name):
 def _do_call(mmo, name):
   try:
     if name in SETQ:
-      return ('ok', sorted(map(str, getattr(mmo, name))))
+      got = getattr(mmo, name)
+      out = ('ok', sorted(map(str, got)))
+      scribble(got)
+      return out
     if name == 'geo_assignments':
       ga = mmo.geo_assignments
       return ('ok', {f.name: sorted(getattr(ga, f.name)) for f in dataclasses.fields(ga)}, list(map(str, mmo.data.geo_index)))
@@ -57,22 +67,32 @@ def _do_call(mmo, name):
       if name == 'treatment_groups_first':
         gen = mmo.treatment_group_generator(n)
         first = next(gen, None)          # the rest of the listing is abandoned
-        return ('ok', None if first is None else sorted(first))
-      groups = [sorted(g) for g in mmo.treatment_group_generator(n)]
+        out = ('ok', None if first is None else sorted(first))
+        scribble(first)
+        return out
+      raw = list(mmo.treatment_group_generator(n))
+      groups = [sorted(g) for g in raw]
+      first = set(groups[0]) if groups else set()
+      for g in raw:
+        scribble(g)
       if name == 'treatment_groups':
         return ('ok', groups)
-      first = set(groups[0]) if groups else set()
       if name == 'control_groups_first':
         gen = mmo.control_group_generator(first)
         c = next(gen, None)
-        return ('ok', None if c is None else sorted(c))
-      return ('ok', [sorted(c) for c in mmo.control_group_generator(first)])
-    if name == 'exh':
-      return ('ok', designs_out(mmo.exhaustive_search()))
-    if name == 'greedy':
-      return ('ok', designs_out(mmo.greedy_search()))
-    if name == 'search_results':
-      return ('ok', designs_out(mmo.search_results()))
+        out = ('ok', None if c is None else sorted(c))
+        scribble(c)
+        return out
+      raw = list(mmo.control_group_generator(first))
+      out = ('ok', [sorted(c) for c in raw])
+      for c in raw:
+        scribble(c)
+      return out
+    if name in ('exh', 'greedy', 'search_results'):
+      got = mmo.exhaustive_search() if name == 'exh' else (mmo.greedy_search() if name == 'greedy' else mmo.search_results())
+      out = ('ok', designs_out(got))
+      scribble(got)
+      return out
     raise KeyError(name)
   except Exception as e:  # pylint: disable=broad-except
     return ('error', type(e).__name__)
